@@ -36,8 +36,9 @@ COMMANDABLE = (D.SOD, D.RTSO, D.SO, D.OE, D.QSA)
 
 def plan(tier, seed):
     shards = [{"kind": "decode", "part": i, "parts": 4} for i in range(4)]
-    shards += [{"kind": "transitions", "transport": t, "delays": [0, 1, 3], "extras": 3 if tier == "quick" else 12, "cs": seed * 10 + i}
-               for i, t in enumerate(["sdo", "pdo", "sdo", "pdo"] + (["pdo-ticked"] if tier == "thorough" else ["pdo-ticked"]))]
+    transports = ["sdo", "pdo", "sdo", "pdo", "pdo-ticked"] if tier == "quick" else ["sdo", "pdo"] * 6 + ["pdo-ticked"] * 3
+    shards += [{"kind": "transitions", "transport": t, "delays": [0, 1, 3] if tier == "quick" else [0, 1, 2, 3, 5, 8],
+                "extras": 3 if tier == "quick" else 12, "cs": seed * 10 + i} for i, t in enumerate(transports)]
     shards += [{"kind": "modes", "masks": 64 if tier == "quick" else 1024, "transport": t, "cs": seed} for t in ("sdo", "pdo")]
     return shards
 
